@@ -2446,7 +2446,10 @@ class PrefixWrapper:
             # XXX: what if ident includes parts of wrapped hash's ident?
             if ident[: len(prefix)] != prefix[: len(ident)]:
                 raise ValueError("ident must agree with prefix")
-            self._ident = ident
+            self._ident = self._given_ident = ident
+
+    #: ident passed to the constructor (if any), so that using() can hand it on
+    _given_ident = None
 
     _wrapped_name = None
     _wrapped_handler = None
@@ -2604,7 +2607,11 @@ class PrefixWrapper:
         assert subcls is not self.wrapped
         # then create identical wrapper which wraps the new subclass.
         wrapper = PrefixWrapper(
-            self.name, subcls, prefix=self.prefix, orig_prefix=self.orig_prefix
+            self.name,
+            subcls,
+            prefix=self.prefix,
+            orig_prefix=self.orig_prefix,
+            ident=self._given_ident,
         )
         wrapper._derived_from = self
         # NOTE: the list itself is carried over too, so that a hasher derived
